@@ -35,7 +35,9 @@ var c03IRKinds = []string{"Alloc", "BinOp", "BlankStore", "Call", "ChangeInterfa
 	"Recv", "Return", "RunDefers", "Select", "Send", "Slice", "SliceToArray", "SliceToArrayPointer", "Store", "TypeAssert", "TypeSwitch",
 	"UnOp", "Unreachable", "StringLookup"}
 
-var c03StdImports = []string{"errors", "fmt", "iter", "sync", "unsafe"}
+var c03StdImports = []string{"errors", "fmt", "iter", "sync", "unsafe",
+	"bytes", "context", "encoding/binary", "encoding/hex", "encoding/json", "encoding/xml", "html/template", "io", "math", "net/url", "os", "os/signal",
+	"regexp", "sort", "strconv", "strings", "sync/atomic", "syscall", "text/template", "time", "unicode/utf8"}
 
 // c03ExportMap asks the go command (run in dir, a go1.26.0 module) for the export data files of
 // the few std packages generated code may import.
